@@ -186,6 +186,28 @@ def pl_frame_case(v, arrangement, N, opts):
         exc = o["exc"]
         cnt = Counter(str(x.reason_code).split(".")[-1] for x in exc.schema_errors)
         asserts.append(("report/error_counts", v.holds(dict(cnt) == {str(k).split(".")[-1]: n for k, n in dict(exc.error_counts).items()})))
+        if opts.get("compare_eager") and not parsing and not nan and not opts.get("unique") and (depth is not None or not lazyframe) and opts.get("depth") != "SO":
+            # exactness of the lazy report: it names every offending (column, row position, value) and no conforming cell
+            import tmpl
+
+            fa = O.FieldSpec("float", nullable=nullable, unique=unique_a, checks=[ca])
+            fb = O.FieldSpec("int", checks=[cb], required=True)
+            rspec = O.FrameSpec({"a": fa, "b": fb})
+            present_cols = [(c, k) for c, k in arr if c in ("a", "b") and k == {"a": "float", "b": "int"}[c]]
+            cells = {c: v.cells(f"{c}_", k, N, True) for c, k in present_cols}
+            viol = rspec.row_violations(v, present_cols, cells)
+            if "b" in cells:  # a polars Int64 column can hold nulls: the non-nullable column b reports them
+                viol[("b", "nullable")] = [cells["b"][1][i] for i in range(N)]
+            positions = [z3.IntVal(i) for i in range(N)]
+            fc = exc.failure_cases
+            if isinstance(fc, (sympl.DataFrame, sympl.LazyFrame)):
+                comp, sound = tmpl.report_exact_terms(v, _FcAdapter(fc), viol, cells, positions)
+                asserts.append(("report/complete", v.holds(comp)))
+                asserts.append(("report/sound", v.holds(sound)))
+            else:
+                comp, sound = tmpl.report_exact_real(fc.to_pandas(), v.vals, viol, cells, positions)
+                asserts.append(("report/complete", comp))
+                asserts.append(("report/sound", sound))
     if o["kind"] == "accept":
         out = o["out"]
         asserts.append(("kind_preserved", v.holds(same_kind(out, df))))
@@ -204,6 +226,19 @@ def pl_frame_case(v, arrangement, N, opts):
             if o3["kind"] == "accept" and H._is_pl(o3["out"]):
                 asserts.append(("fixpoint_identity", pl_equal(v, o3["out"], osnap, same_class=False)))
     return dict(obs=o, asserts=asserts, facts=facts)
+
+
+class _FcAdapter:
+    """a sympl failure-case table seen through the attributes tmpl.report_exact_terms reads from a symframe table"""
+
+    class _C:
+        def __init__(self, c):
+            self.vals = [(x.as_string() if z3.is_expr(x) and z3.is_string_value(x) else x) for x in c.vals]
+            self.nulls = list(c.nulls)
+
+    def __init__(self, fc):
+        self.present = list(fc.present)
+        self._cols = [(k, _FcAdapter._C(c)) for k, c in fc.cols.items()]
 
 
 def drop_asserts(v, o, df, snap, arr, N, P):
